@@ -140,7 +140,39 @@ def run_cand_seg(x):
     return x
 
 
+# ------------------------------------------------------------------------------- C17
+def gen_namemap(args):
+    sys.path.insert(0, os.path.join(os.path.dirname(os.path.abspath(__file__)), ".."))
+    from vf import gen_namemap_data as G
+    vocab = G.VOCAB
+    for n in range(0, args["maxlen"] + 1):
+        for cols in itertools.permutations(vocab, n):
+            yield {"cols": list(cols), "table": args["table"], "req": args["req"]}
+
+
+def run_namemap(x):
+    sys.path.insert(0, os.path.join(os.path.dirname(os.path.abspath(__file__)), ".."))
+    from vf import gen_namemap_data as G
+    from funtracks.import_export._name_mapping import infer_node_name_map
+    table = G.TABLES[x["table"]]
+    # feature metadata equivalent to the display-name table (what build_display_name_mapping reads)
+    feats = {}
+    for disp, (key, idx) in table.items():
+        f = feats.setdefault(key, {"feature_type": "node", "num_values": 0, "value_names": [], "display_name": None})
+        f["num_values"] += 1
+        f["value_names"].append(disp)
+    for key, f in feats.items():
+        if f["num_values"] == 1:
+            f["display_name"] = f["value_names"][0]
+            f["value_names"] = None
+    feats["iou"] = {"feature_type": "edge", "num_values": 1, "display_name": "IoU"}
+    out = infer_node_name_map(list(x["cols"]), list(G.REQUIRED[x["req"]]), feats)
+    x["out"] = [[k, v if isinstance(v, list) else [v]] for k, v in out.items()]
+    return x
+
+
 PARTS = {
+    "namemap": (gen_namemap, run_namemap),
     "cand_points": (gen_cand_points, run_cand_points),
     "cand_seg": (gen_cand_seg, run_cand_seg),
     "labels_unique": (gen_labels_unique, run_labels_unique),
